@@ -182,6 +182,7 @@ int main() {
       if (getenv("C20_DEBUG")) ip->SetOutputStringOn(true);
       std::string input = hx::unhex(w[3]);
       int nerr = ip->RunString(input.c_str());
+      std::string errtxt = nerr ? ip->GetErrorString() : "";
       std::cout << "CASE " << w[1] << " errors=" << nerr << " blocks=" << run.blocks.size() << "\n";
       // rows of selected output 1 (row 0 = headings)
       ip->SetCurrentSelectedOutputUserNumber(1);
@@ -200,7 +201,7 @@ int main() {
         } else std::cout << "NOROW\n";
         std::cout << "E\n";
       }
-      if (nerr) std::cout << "ERR " << hex(ip->GetErrorString()) << "\n";
+      if (nerr) std::cout << "ERR " << hex(errtxt) << "\n";
       if (nerr && getenv("C20_DEBUG")) { std::string o = ip->GetOutputString(); std::cerr << o.substr(o.size() > 3000 ? o.size() - 3000 : 0) << "\n"; }
       std::cout << "END " << w[1] << " rows=" << (nr > 0 ? nr - 1 : 0) << "\n";
       std::cout.flush();
